@@ -83,9 +83,11 @@ class Ctx:
         from harness.tlc import MachineryError
         try:
             self.extra["binding_selftest"] = fn(*args)
-        except MachineryError as e:
+        except Exception as e:
+            # (any exception: on a tree that already violates the property the self-test's own baseline call may raise or lack fields)
             if self.violations or self.known_hit:
-                self.extra["binding_selftest"] = {"ran": False, "why": "baseline rejected on a tree that violates the property: %s" % str(e)[:300]}
+                self.extra["binding_selftest"] = {"ran": False, "why": "baseline unusable on a tree that violates the property: %s: %s"
+                                                  % (type(e).__name__, str(e)[:300])}
             else:
                 raise
 
